@@ -9,7 +9,8 @@ namespace SkNet.Svg
 /-! ### lexical side conditions -/
 
 def attrLexOk (a : Attr) : Bool :=
-  !a.sep.isEmpty && a.sep.all isWs && nameOk a.key && (a.q == 34 || a.q == 39) && a.val.all (attrCharOk a.q)
+  !a.sep.isEmpty && a.sep.all isWs && nameOk a.key && (a.q == 34 || a.q == 39) &&
+    attrValOk a.q (a.val.length + 1) a.val
 
 def pieceLexOk : Piece → Bool
   | .otag n as t => nameOk n && as.all attrLexOk && t.all isWs
@@ -72,16 +73,161 @@ theorem isWs_not_nameChar {c : Nat} (h : isWs c = true) : isNameChar c = false :
 
 /-! ### attributes -/
 
-theorem attr_val_ne_q {q : Nat} {v : PyStr} (h : v.all (attrCharOk q) = true) :
+/-- `spanP` splits the list where it says -/
+theorem spanP_eq (p : Nat → Bool) (l : PyStr) : l = (spanP p l).1 ++ (spanP p l).2 ∧ (spanP p l).1.all p = true := by
+  induction l with
+  | nil => simp [spanP]
+  | cons c r ih =>
+    simp only [spanP]
+    split
+    · rename_i hc
+      simp only [List.cons_append, List.all_cons, hc, Bool.true_and]
+      exact ⟨by rw [← ih.1], ih.2⟩
+    · simp
+
+/-- the first element left by `spanP` fails the predicate -/
+theorem spanP_head_fails (p : Nat → Bool) : ∀ (l a : PyStr) (y : Nat) (t : PyStr),
+    spanP p l = (a, y :: t) → p y = false := by
+  intro l
+  induction l with
+  | nil => intro a y t hh; simp [spanP] at hh
+  | cons z zs ihz =>
+    intro a y t hh
+    simp only [spanP] at hh
+    split at hh
+    · cases hs : spanP p zs with
+      | mk a' b' =>
+        rw [hs] at hh
+        simp only [Prod.mk.injEq] at hh
+        exact ihz a' y t (by rw [hs, hh.2])
+    · rename_i hz
+      simp only [Prod.mk.injEq, List.cons.injEq] at hh
+      have : z = y := hh.2.1
+      subst this
+      simpa using hz
+
+/-- an attribute value (between quotes `q`), as a grammar: plain characters and references -/
+inductive ValOk (q : Nat) : PyStr → Prop
+  | nil : ValOk q []
+  | chr (c : Nat) (r : PyStr) : isXmlChar c = true → c ≠ 60 → c ≠ 38 → c ≠ q → ValOk q r → ValOk q (c :: r)
+  | ref (b r : PyStr) : refOk b = true → b.all (fun x => x != 59) = true → ValOk q r →
+      ValOk q (38 :: (b ++ 59 :: r))
+
+theorem ValOk.append {q : Nat} {a b : PyStr} (ha : ValOk q a) (hb : ValOk q b) : ValOk q (a ++ b) := by
+  induction ha with
+  | nil => exact hb
+  | chr c r h1 h2 h3 h4 _ ih => exact ValOk.chr c _ h1 h2 h3 h4 ih
+  | ref b' r h1 h2 _ ih =>
+    have : 38 :: (b' ++ 59 :: r) ++ b = 38 :: (b' ++ 59 :: (r ++ b)) := by simp
+    rw [this]; exact ValOk.ref b' _ h1 h2 ih
+
+/-- the checker accepts the grammar … -/
+theorem ValOk.check {q : Nat} {v : PyStr} (h : ValOk q v) : ∀ f, v.length < f → attrValOk q f v = true := by
+  induction h with
+  | nil =>
+    intro f hf
+    obtain ⟨f', rfl⟩ : ∃ f', f = f' + 1 := ⟨f - 1, by simp at hf; omega⟩
+    rfl
+  | chr c r h1 h2 h3 h4 _ ih =>
+    intro f hf
+    obtain ⟨f', rfl⟩ : ∃ f', f = f' + 1 := ⟨f - 1, by simp at hf; omega⟩
+    simp only [attrValOk, h3, if_false, h1, Bool.true_and, Bool.and_eq_true, bne_iff_ne, ne_eq]
+    exact ⟨⟨h2, h4⟩, ih f' (by simp at hf; omega)⟩
+  | ref b r h1 h2 _ ih =>
+    intro f hf
+    obtain ⟨f', rfl⟩ : ∃ f', f = f' + 1 := ⟨f - 1, by simp at hf; omega⟩
+    simp only [attrValOk, if_true]
+    rw [spanP_stop (fun x => x != 59) b 59 r h2 (by simp)]
+    simp only [h1, Bool.true_and]
+    exact ih f' (by simp at hf; omega)
+
+/-- … and nothing else -/
+theorem ValOk.of_check {q : Nat} : ∀ (f : Nat) (v : PyStr), attrValOk q f v = true → ValOk q v := by
+  intro f
+  induction f with
+  | zero => intro v h; simp [attrValOk] at h
+  | succ f ih =>
+    intro v h
+    cases v with
+    | nil => exact ValOk.nil
+    | cons c r =>
+      simp only [attrValOk] at h
+      split at h
+      · rename_i hc
+        subst hc
+        have hsp := spanP_eq (fun x => x != 59) r
+        split at h
+        · rename_i b x r2 hspan
+          simp only [Bool.and_eq_true] at h
+          rw [hspan] at hsp
+          simp only at hsp
+          have hx : x = 59 := by
+            have := spanP_head_fails (fun y => y != 59) r b x r2 hspan
+            simpa using this
+          subst hx
+          rw [hsp.1]
+          exact ValOk.ref b r2 h.1 hsp.2 (ih r2 h.2)
+        · simp at h
+      · rename_i hc
+        simp only [Bool.and_eq_true, bne_iff_ne, ne_eq] at h
+        exact ValOk.chr c r h.1.1.1 h.1.1.2 hc h.1.2 (ih r h.2)
+
+theorem refOk_no_quote {b : PyStr} (h : refOk b = true) : b.all (fun x => x != 34 && x != 39) = true := by
+  unfold refOk at h
+  simp only [Bool.or_eq_true, beq_iff_eq] at h
+  rcases h with ((((h | h) | h) | h) | h) | h
+  · subst h; decide
+  · subst h; decide
+  · subst h; decide
+  · subst h; decide
+  · subst h; decide
+  · split at h
+    · rename_i ds
+      simp only [Bool.and_eq_true] at h
+      have hd := h.1.2
+      simp only [List.all_cons, Bool.and_eq_true]
+      refine ⟨by decide, by decide, ?_⟩
+      rw [List.all_eq_true] at hd ⊢
+      intro x hx
+      have := hd x hx
+      simp only [isHexDigit, isDigit, Bool.or_eq_true, Bool.and_eq_true, decide_eq_true_eq] at this
+      simp only [Bool.and_eq_true, bne_iff_ne, ne_eq]
+      omega
+    · rename_i ds _
+      simp only [Bool.and_eq_true] at h
+      have hd := h.1.2
+      simp only [List.all_cons, Bool.and_eq_true]
+      refine ⟨by decide, ?_⟩
+      rw [List.all_eq_true] at hd ⊢
+      intro x hx
+      have := hd x hx
+      simp only [isDigit, Bool.and_eq_true, decide_eq_true_eq] at this
+      simp only [Bool.and_eq_true, bne_iff_ne, ne_eq]
+      omega
+    · simp at h
+
+theorem ValOk.ne_q {q : Nat} {v : PyStr} (h : ValOk q v) (hq : q = 34 ∨ q = 39) :
     v.all (fun x => x != q) = true := by
-  induction v with
+  induction h with
   | nil => rfl
-  | cons x xs ih =>
-    simp only [List.all_cons, Bool.and_eq_true] at h ⊢
-    refine ⟨?_, ih h.2⟩
-    have := h.1
-    simp only [attrCharOk, Bool.and_eq_true] at this
-    exact this.2
+  | chr c r _ _ _ h4 _ ih => simp [h4, ih]
+  | ref b r h1 _ _ ih =>
+    have hb := refOk_no_quote h1
+    have hb' : b.all (fun x => x != q) = true := by
+      rw [List.all_eq_true] at hb ⊢
+      intro x hx
+      have := hb x hx
+      simp only [Bool.and_eq_true, bne_iff_ne, ne_eq] at this ⊢
+      rcases hq with h | h <;> subst h
+      · exact this.1
+      · exact this.2
+    have h38 : (38 : Nat) ≠ q := by rcases hq with h | h <;> subst h <;> decide
+    have h59 : (59 : Nat) ≠ q := by rcases hq with h | h <;> subst h <;> decide
+    simp [List.all_append, hb', ih, h38, h59]
+
+theorem attr_val_ne_q {q : Nat} {v : PyStr} (hq : q = 34 ∨ q = 39) (h : attrValOk q (v.length + 1) v = true) :
+    v.all (fun x => x != q) = true :=
+  (ValOk.of_check _ _ h).ne_q hq
 
 /-- what follows the attributes of a tag: blanks then `>` or `/>` -/
 def tagEnd (t : PyStr) (selfClose : Bool) (rest : PyStr) : PyStr :=
@@ -134,7 +280,7 @@ theorem parseAttrs_render (as : List Attr) (t : PyStr) (sc : Bool) (rest : PyStr
     rw [hspan]
     have hkey' : nameOk (k0 :: ks) = true := hk ▸ hkey
     simp only [hkey', Bool.not_true, Bool.false_eq_true, if_false, true_and, hq, if_true]
-    rw [spanP_stop (fun x => x != a.q) a.val a.q _ (attr_val_ne_q hval) (by simp)]
+    rw [spanP_stop (fun x => x != a.q) a.val a.q _ (attr_val_ne_q hq hval) (by simp)]
     simp only [hval, if_true, ih']
     cases a
     simp_all
